@@ -136,7 +136,10 @@ class Block2Cache:
             marker = object()
             self._rendering[block_key] = marker
             try:
-                assembled = await response_builder()
+                # A snapshot: the object stays the handler's, which may return it
+                # again with other content while blocks of this rendering are
+                # still being fetched
+                assembled = (await response_builder()).copy()
             finally:
                 # A block-0 request that arrived while this one was being
                 # rendered has superseded it, whether or not it is done yet
